@@ -1,1 +1,6 @@
 pub mod c01;
+pub mod c05;
+pub mod c06;
+pub mod c07;
+pub mod c10;
+pub mod c12;
